@@ -834,3 +834,446 @@ def write_elf_sparse(path, segs, ps=4096):
             f.seek(s_["offset"])
             for i in range(s_["npages"]):
                 f.write(page_bytes(s_["pfn"] + i, ps))
+# ======================================================================
+# C03 additions (appended): ELF notes / sections, LKCD, SADUMP, s390,
+# diskdump notes, and field tables (file offset, width, endianness of every
+# header / descriptor field) used by the hostile-input generators.
+# ======================================================================
+
+def elf_note(name, ntype, desc, be=False):
+    E = ">" if be else "<"
+    nm = name + b"\0"
+    return (struct.pack(E + "III", len(nm), len(desc), ntype) + nm.ljust((len(nm) + 3) & ~3, b"\0") +
+            desc.ljust((len(desc) + 3) & ~3, b"\0"))
+
+
+def prstatus_x86_64(pid=1):
+    """elf_prstatus of x86-64 (336 bytes): pr_pid at 32, registers at 112."""
+    b = bytearray(336)
+    struct.pack_into("<I", b, 32, pid)
+    for i in range(27):
+        struct.pack_into("<Q", b, 112 + 8 * i, 0x1000 * (i + 1) + pid)
+    return bytes(b)
+
+
+def std_notes(be=False, vmcoreinfo=b"OSRELEASE=5.4.0-verif\nPAGESIZE=4096\nSYMBOL(swapper_pg_dir)=ffffffff81c0a000\n",
+              prstatus=True):
+    n = b""
+    if prstatus:
+        n += elf_note(b"CORE", 1, prstatus_x86_64(1), be)
+        n += elf_note(b"CORE", 1, prstatus_x86_64(2), be)
+    if vmcoreinfo is not None:
+        n += elf_note(b"VMCOREINFO", 0, vmcoreinfo, be)
+    return n
+
+
+def elf_fields(elfclass=64, be=False, nph=0, nsh=0, phoff=None, shoff=None):
+    """[(name, off, width, be)] for the ELF header, every program and section header."""
+    f = []
+    def add(name, off, w):
+        f.append((name, off, w, 1 if be else 0))
+    if elfclass == 64:
+        for name, off, w in (("e_type", 16, 2), ("e_machine", 18, 2), ("e_version", 20, 4), ("e_entry", 24, 8),
+                             ("e_phoff", 32, 8), ("e_shoff", 40, 8), ("e_flags", 48, 4), ("e_ehsize", 52, 2),
+                             ("e_phentsize", 54, 2), ("e_phnum", 56, 2), ("e_shentsize", 58, 2), ("e_shnum", 60, 2),
+                             ("e_shstrndx", 62, 2), ("ei_class", 4, 1), ("ei_data", 5, 1)):
+            add(name, off, w)
+        phoff = 64 if phoff is None else phoff
+        for i in range(nph):
+            o = phoff + 56 * i
+            for name, d, w in (("p_type", 0, 4), ("p_flags", 4, 4), ("p_offset", 8, 8), ("p_vaddr", 16, 8),
+                               ("p_paddr", 24, 8), ("p_filesz", 32, 8), ("p_memsz", 40, 8), ("p_align", 48, 8)):
+                add("ph%d.%s" % (i, name), o + d, w)
+        for i in range(nsh):
+            o = shoff + 64 * i
+            for name, d, w in (("sh_name", 0, 4), ("sh_type", 4, 4), ("sh_flags", 8, 8), ("sh_addr", 16, 8),
+                               ("sh_offset", 24, 8), ("sh_size", 32, 8), ("sh_link", 40, 4), ("sh_info", 44, 4),
+                               ("sh_addralign", 48, 8), ("sh_entsize", 56, 8)):
+                add("sh%d.%s" % (i, name), o + d, w)
+    else:
+        for name, off, w in (("e_type", 16, 2), ("e_machine", 18, 2), ("e_version", 20, 4), ("e_entry", 24, 4),
+                             ("e_phoff", 28, 4), ("e_shoff", 32, 4), ("e_flags", 36, 4), ("e_ehsize", 40, 2),
+                             ("e_phentsize", 42, 2), ("e_phnum", 44, 2), ("e_shentsize", 46, 2), ("e_shnum", 48, 2),
+                             ("e_shstrndx", 50, 2), ("ei_class", 4, 1), ("ei_data", 5, 1)):
+            add(name, off, w)
+        phoff = 52 if phoff is None else phoff
+        for i in range(nph):
+            o = phoff + 32 * i
+            for name, d, w in (("p_type", 0, 4), ("p_offset", 4, 4), ("p_vaddr", 8, 4), ("p_paddr", 12, 4),
+                               ("p_filesz", 16, 4), ("p_memsz", 20, 4), ("p_flags", 24, 4), ("p_align", 28, 4)):
+                add("ph%d.%s" % (i, name), o + d, w)
+        for i in range(nsh):
+            o = shoff + 40 * i
+            for name, d, w in (("sh_name", 0, 4), ("sh_type", 4, 4), ("sh_flags", 8, 4), ("sh_addr", 12, 4),
+                               ("sh_offset", 16, 4), ("sh_size", 20, 4), ("sh_link", 24, 4), ("sh_info", 28, 4),
+                               ("sh_addralign", 32, 4), ("sh_entsize", 36, 4)):
+                add("sh%d.%s" % (i, name), o + d, w)
+    return f
+
+
+def note_fields(blob_off, notes, be=False):
+    """fields of every Elf_Nhdr inside a note blob placed at file offset blob_off"""
+    f, p, i = [], 0, 0
+    E = ">" if be else "<"
+    while p + 12 <= len(notes):
+        namesz, descsz, _ = struct.unpack_from(E + "III", notes, p)
+        for name, d in (("n_namesz", 0), ("n_descsz", 4), ("n_type", 8)):
+            f.append(("note%d.%s" % (i, name), blob_off + p + d, 4, 1 if be else 0))
+        p += 12 + ((namesz + 3) & ~3) + ((descsz + 3) & ~3)
+        i += 1
+    return f
+
+
+def note_desc_fields(blob_off, notes, be=False, maxdesc=64, width=8):
+    """the words of every short note descriptor (e.g. the Xen dumpcore header) as fields"""
+    f, p, i = [], 0, 0
+    E = ">" if be else "<"
+    while p + 12 <= len(notes):
+        namesz, descsz, _ = struct.unpack_from(E + "III", notes, p)
+        d = p + 12 + ((namesz + 3) & ~3)
+        if descsz <= maxdesc:
+            for k in range(0, descsz - width + 1, width):
+                f.append(("note%d.desc+%d" % (i, k), blob_off + d + k, width, 1 if be else 0))
+        p = d + ((descsz + 3) & ~3)
+        i += 1
+    return f
+
+
+def write_elf_sections(path, ps=4096, machine="x86_64", pages=(3, 4, 7), p2m=True, be=False, prstatus=True,
+                       strtab_terminated=True):
+    """xc_core-like ELF64: no program headers, sections .shstrtab, .note.Xen, .xen_prstatus,
+    .xen_pages, .xen_p2m (or .xen_pfn).  Returns dict(fields=, bounds=)."""
+    E = ">" if be else "<"
+    names = [b"", b".shstrtab", b".note.Xen", b".xen_prstatus", b".xen_pages", b".xen_p2m" if p2m else b".xen_pfn"]
+    strtab = b""
+    nameoff = []
+    for n in names:
+        nameoff.append(len(strtab))
+        strtab += n + b"\0"
+    if not strtab_terminated:
+        strtab = strtab[:-1]
+    xen_hdr = struct.pack(E + "QQQQ", 0xF00FEBED if p2m else 0xF00FEBEE, 1, len(pages), ps)
+    notes = (elf_note(b"Xen", 0x2000001, xen_hdr, be) + elf_note(b"Xen", 0x2000003, struct.pack(E + "Q", 1), be) +
+             elf_note(b".note.Xen", 0x2000001, xen_hdr, be) + elf_note(b".note.Xen", 0x2000003, struct.pack(E + "Q", 1), be))
+    prst = bytes(bytearray(range(256)) * 21)[:5168] if prstatus else b""     # one vcpu_guest_context-sized record
+    if p2m:
+        mapb = b"".join(struct.pack(E + "QQ", p, 0x100 + p) for p in pages)
+    else:
+        mapb = b"".join(struct.pack(E + "Q", p) for p in pages)
+    ehsz, shsz = 64, 64
+    bodies = [b"", strtab, notes, prst, None, mapb]
+    off = ehsz
+    offs = []
+    for i, b in enumerate(bodies):
+        if b is None:
+            off = (off + ps - 1) // ps * ps
+            offs.append(off)
+            off += len(pages) * ps
+        else:
+            off = (off + 7) & ~7
+            offs.append(off)
+            off += len(b)
+    shoff = (off + 7) & ~7
+    sh = b""
+    for i, b in enumerate(bodies):
+        size = len(pages) * ps if b is None else len(b)
+        sh += struct.pack(E + "IIQQQQIIQQ", nameoff[i], 0 if i == 0 else (3 if i == 1 else (7 if i == 2 else 1)), 0, 0,
+                          offs[i] if i else 0, size if i else 0, 0, 0, 8, 0)
+    ident = b"\x7fELF" + bytes([2, 2 if be else 1, 1, 0]) + b"\0" * 8
+    eh = ident + struct.pack(E + "HHIQQQIHHHHHH", 4, EM[machine], 1, 0, 0, shoff, 0, ehsz, 56, 0, shsz, len(bodies), 1)
+    img = bytearray(shoff + len(sh))
+    img[0:len(eh)] = eh
+    for i, b in enumerate(bodies):
+        if b is None:
+            for k, p in enumerate(pages):
+                img[offs[i] + k * ps:offs[i] + (k + 1) * ps] = page_bytes(p, ps)
+        else:
+            img[offs[i]:offs[i] + len(b)] = b
+    img[shoff:] = sh
+    with open(path, "wb") as f:
+        f.write(img)
+    fields = elf_fields(64, be, 0, len(bodies), shoff=shoff) + note_fields(offs[2], notes, be) + note_desc_fields(offs[2], notes, be)
+    for k in range(len(pages)):
+        w = 16 if p2m else 8
+        fields.append(("map%d.pfn" % k, offs[5] + k * w, 8, 1 if be else 0))
+        if p2m:
+            fields.append(("map%d.gmfn" % k, offs[5] + k * w + 8, 8, 1 if be else 0))
+    bounds = sorted({0, ehsz, shoff, shoff + len(sh)} | set(offs) | {offs[i] + (len(b) if b is not None else len(pages) * ps) for i, b in enumerate(bodies)} |
+                    {shoff + 64 * i for i in range(len(bodies))})
+    return dict(fields=fields, bounds=bounds, size=len(img))
+
+
+def elf_layout(path, elfclass, be, nph, notes):
+    """fields/bounds of a file written by write_elf (program headers directly after the ELF header)."""
+    ehsz, phsz = (64, 56) if elfclass == 64 else (52, 32)
+    hdr_end = ehsz + nph * phsz
+    size = len(open(path, "rb").read())
+    fields = elf_fields(elfclass, be, nph)
+    if notes:
+        fields += note_fields(hdr_end, notes, be)
+    bounds = sorted({0, 16, ehsz, hdr_end, hdr_end + len(notes), size} | {ehsz + phsz * i for i in range(nph)} |
+                    {x for x in range(4096, size, 4096)})
+    return dict(fields=fields, bounds=bounds, size=size)
+
+
+def diskdump_layout(path, ps=4096, bits=64, be=False, ndesc=0, pdoff=None, sub_hdr_size=1):
+    b = 1 if be else 0
+    f = [("signature", 0, 8, 0), ("header_version", 8, 4, b)]
+    o = 12 + 6 * 65 + (6 if bits == 64 else 2) + (16 if bits == 64 else 8)
+    for name in ("status", "block_size", "sub_hdr_size", "bitmap_blocks", "max_mapnr", "total_ram_blocks",
+                 "device_blocks", "written_blocks", "current_cpu", "nr_cpus"):
+        f.append((name, o, 4, b))
+        o += 4
+    for i, u in enumerate(("sysname", "nodename", "release", "version", "machine", "domainname")):
+        f.append(("uts." + u + "[0]", 12 + 65 * i, 1, 0))
+        f.append(("uts." + u + "[64]", 12 + 65 * i + 64, 1, 0))
+    if bits == 64:
+        sub = [("phys_base", 8), ("dump_level", 4), ("split", 4), ("start_pfn", 8), ("end_pfn", 8), ("offset_vmcoreinfo", 8),
+               ("size_vmcoreinfo", 8), ("offset_note", 8), ("size_note", 8), ("offset_eraseinfo", 8), ("size_eraseinfo", 8),
+               ("start_pfn_64", 8), ("end_pfn_64", 8), ("max_mapnr_64", 8)]
+    else:
+        sub = [("phys_base", 4), ("dump_level", 4), ("split", 4), ("start_pfn", 4), ("end_pfn", 4), ("offset_vmcoreinfo", 8),
+               ("size_vmcoreinfo", 4), ("offset_note", 8), ("size_note", 4), ("offset_eraseinfo", 8), ("size_eraseinfo", 4),
+               ("start_pfn_64", 8), ("end_pfn_64", 8), ("max_mapnr_64", 8)]
+    o = ps
+    for name, w in sub:
+        f.append(("sub." + name, o, w, b))
+        o += w
+    size = len(open(path, "rb").read())
+    bounds = {0, 8, 12, ps, o, 2 * ps, size}
+    if pdoff is not None:
+        bounds |= {pdoff}
+        for i in range(ndesc):
+            d = pdoff + 24 * i
+            f += [("pd%d.offset" % i, d, 8, b), ("pd%d.size" % i, d + 4 + 4, 4, b), ("pd%d.flags" % i, d + 12, 4, b),
+                  ("pd%d.page_flags" % i, d + 16, 8, b)]
+            bounds |= {d, d + 24}
+        # first bytes of the two bitmaps
+        f += [("bitmap1[0]", (1 + sub_hdr_size) * ps, 1, 0), ("bitmap2[0]", (pdoff + (1 + sub_hdr_size) * ps) // 2, 1, 0)]
+        bounds |= {(1 + sub_hdr_size) * ps, (pdoff + (1 + sub_hdr_size) * ps) // 2}
+    bounds |= {x for x in range(0, size, ps)}
+    return dict(fields=f, bounds=sorted(bounds), size=size)
+
+
+def add_diskdump_notes(path, notes, ps=4096, bits=64, be=False):
+    """append a note blob to a (non-flattened) diskdump file and point the sub-header at it"""
+    E = ">" if be else "<"
+    img = bytearray(open(path, "rb").read())
+    img += bytes(-len(img) % 8)             # note headers are read in place: keep them aligned
+    off = len(img)
+    img += notes
+    if bits == 64:
+        struct.pack_into(E + "QQ", img, ps + 8 + 4 + 4 + 8 + 8 + 8 + 8, off, len(notes))
+    else:
+        struct.pack_into(E + "QI", img, ps + 4 + 4 + 4 + 4 + 4 + 8 + 4, off, len(notes))
+    open(path, "wb").write(img)
+    return off
+
+
+def flattened_layout(path):
+    """record headers of a flattened file: fields + bounds"""
+    img = open(path, "rb").read()
+    f = [("flat.signature", 0, 8, 0), ("flat.type", 16, 8, 1), ("flat.version", 24, 8, 1)]
+    bounds = {0, 16, 32, 4096, len(img)}
+    pos, i = 4096, 0
+    while pos + 16 <= len(img):
+        off, size = struct.unpack_from(">qq", img, pos)
+        f += [("rec%d.offset" % i, pos, 8, 1), ("rec%d.size" % i, pos + 8, 8, 1)]
+        bounds |= {pos, pos + 16}
+        if off < 0:
+            break
+        pos += 16 + size
+        i += 1
+    return dict(fields=f, bounds=sorted(bounds), size=len(img))
+
+
+def rle_compress(data):
+    """LKCD RLE: 0,n,b = run of n (n>=1) copies of b; 0,0 = literal NUL; other bytes literal."""
+    out = bytearray()
+    i = 0
+    while i < len(data):
+        b = data[i]
+        j = i
+        while j < len(data) and data[j] == b and j - i < 255:
+            j += 1
+        n = j - i
+        if n >= 4 or (b == 0 and n >= 2):
+            out += bytes([0, n, b])
+            i = j
+        elif b == 0:
+            out += b"\0\0"
+            i += 1
+        else:
+            out.append(b)
+            i += 1
+    return bytes(out)
+
+
+def c03_write_lkcd(path, pages, ps=4096, version=8, compress=1, be=False, machine="x86_64", methods=None,
+               data_offset=65536, end_marker=True, nuls=(), streams=None):
+    """LKCD v8/v9/v10 (unified header).  compress: 0 none, 1 RLE, 2 GZIP.  methods: pfn -> 'raw'|'comp'.
+    Returns dict(fields=, bounds=, pages={pfn: (descoff, dataoff, size)})."""
+    E = ">" if be else "<"
+    b = 1 if be else 0
+    uts = [b"Linux", b"verif", b"5.4.0-verif", b"#1 SMP", machine.encode(), b"(none)"]
+    hdr = struct.pack(E + "QIIIIQQQ", 0xa8190173618f23ed, version, 742, 0, ps, len(pages) * ps, 0, (max(pages) + 1) * ps if pages else 0)
+    hdr += struct.pack(E + "I", len(pages)) + b"panic".ljust(256, b"\0") + struct.pack(E + "QQ", 0, 0)
+    hdr += b"".join(u.ljust(65, b"\0") for u in uts)
+    hdr += struct.pack(E + "QIII", 0, compress, 0, 0)
+    hdr += struct.pack(E + "Q", data_offset)
+    img = bytearray(hdr.ljust(data_offset, b"\0"))
+    fields = [("dh_magic_number", 0, 8, b), ("dh_version", 8, 4, b), ("dh_header_size", 12, 4, b), ("dh_dump_level", 16, 4, b),
+              ("dh_page_size", 20, 4, b), ("dh_memory_size", 24, 8, b), ("dh_memory_start", 32, 8, b), ("dh_memory_end", 40, 8, b),
+              ("dh_num_pages", 48, 4, b), ("dh_current_task", 714, 8, b), ("dh_dump_compress", 722, 4, b), ("dh_dump_flags", 726, 4, b),
+              ("dh_dump_device", 730, 4, b), ("dh_dump_buffer_size", 734, 8, b)]
+    for i, u in enumerate(("sysname", "nodename", "release", "version", "machine", "domainname")):
+        fields.append(("uts." + u + "[0]", 324 + 65 * i, 1, 0))
+        fields.append(("uts." + u + "[64]", 324 + 65 * i + 64, 1, 0))
+    bounds = {0, 48, 52, 308, 324, 714, 742, data_offset}
+    pinfo = {}
+    for k, p in enumerate(pages):
+        raw = page_bytes(p, ps, nuls)
+        m = (methods or {}).get(p, "comp" if compress else "raw")
+        if streams and p in streams:                # hand-made compressed stream
+            d, fl = streams[p], 2
+        elif m == "comp" and compress == 1:
+            d, fl = rle_compress(raw), 2
+        elif m == "comp" and compress == 2:
+            d, fl = zlib.compress(raw), 2
+        else:
+            d, fl = raw, 1
+        o = len(img)
+        img += struct.pack(E + "QII", p * ps, len(d), fl) + d
+        fields += [("dp%d.address" % k, o, 8, b), ("dp%d.size" % k, o + 8, 4, b), ("dp%d.flags" % k, o + 12, 4, b)]
+        bounds |= {o, o + 16, o + 16 + len(d)}
+        pinfo[p] = (o, o + 16, len(d))
+    if end_marker:
+        o = len(img)
+        img += struct.pack(E + "QII", 0, 0, 4)
+        fields += [("end.address", o, 8, b), ("end.size", o + 8, 4, b), ("end.flags", o + 12, 4, b)]
+        bounds |= {o, o + 16}
+    with open(path, "wb") as f:
+        f.write(img)
+    return dict(fields=fields, bounds=sorted(bounds | {len(img)}), size=len(img), pages=pinfo)
+
+
+def _sadump_magic(n, start=0x12345):
+    out, m = [], start
+    for _ in range(n):
+        out.append(m & 0xffffffff)
+        m = (11 * (m + 7)) & 0xffffffff
+    return out
+
+
+def c03_write_sadump(path, pages, ps=4096, kind="single", max_mapnr=None, ram=None, nr_cpus=2, header_version=1,
+                 lma=True, block_size=4096, disk_num=1):
+    """Fujitsu SADUMP, one file: kind = 'single' | 'diskset' (one disk) | 'media'.
+    Returns dict(fields=, bounds=)."""
+    pages = sorted(set(pages))
+    ram = sorted(set(ram if ram is not None else pages) | set(pages))
+    if max_mapnr is None:
+        max_mapnr = (max(ram) + 1) if ram else 1
+    bs = block_size
+    guid = lambda k: bytes((k * 17 + i) & 0xff for i in range(16))
+    stamp = struct.pack("<HBBBBBBIhBB", 2024, 1, 2, 3, 4, 5, 0, 0, 0, 0, 0)
+    fields, bounds = [], {0}
+    img = bytearray()
+    part_pos = 0
+    if kind == "media":
+        media = guid(1) + guid(2) + stamp + bytes([1, 0, 1, 1])
+        img += media.ljust(bs, b"\0")
+        fields += [("media.sequential_num", 48, 1, 0), ("media.term_cord", 49, 1, 0), ("media.disk_set_header_size", 50, 1, 0),
+                   ("media.disks_in_use", 51, 1, 0), ("media.sadump_id[0]", 0, 1, 0), ("media.disk_set_id[0]", 16, 1, 0),
+                   ("media.time_stamp.year", 32, 2, 0)]
+        part_pos = bs
+        bounds |= {52, bs}
+    part = struct.pack("<IIIIII", 0x75646173, 0x0000706d, 1, 0, 0, 0) + b"\0" * 64
+    part += guid(1) + guid(2) + guid(3) + stamp
+    part += struct.pack("<IIQ", 1 if kind == "diskset" else 0, 0, 0)          # used_device patched below
+    assert len(part) == 168
+    magics = _sadump_magic((bs - 168) // 4)
+    part += b"".join(struct.pack("<I", m) for m in magics)
+    img += part
+    P = part_pos
+    fields += [("part.signature0", P, 4, 0), ("part.signature1", P + 4, 4, 0), ("part.enable", P + 8, 4, 0), ("part.compress", P + 16, 4, 0),
+               ("part.sadump_id[0]", P + 88, 1, 0), ("part.disk_set_id[0]", P + 104, 1, 0), ("part.vol_id[0]", P + 120, 1, 0),
+               ("part.time_stamp.year", P + 136, 2, 0), ("part.set_disk_set", P + 152, 4, 0), ("part.used_device", P + 160, 8, 0),
+               ("part.magic[0]", P + 168, 4, 0), ("part.magic[1]", P + 172, 4, 0), ("part.magic[last]", P + bs - 4, 4, 0)]
+    bounds |= {P, P + 168, P + bs}
+    if kind == "diskset":
+        D = len(img)
+        dsh = struct.pack("<IIQ", 1, disk_num, 0) + guid(3) + struct.pack("<QII", 0, 0, 0)
+        img += dsh.ljust(bs, b"\0")
+        fields += [("dset.disk_set_header_size", D, 4, 0), ("dset.disk_num", D + 4, 4, 0), ("dset.disk_set_size", D + 8, 8, 0),
+                   ("dset.vol0.id[0]", D + 16, 1, 0), ("dset.vol0.vol_size", D + 32, 8, 0), ("dset.vol0.status", D + 40, 4, 0)]
+        bounds |= {D, D + 16, D + 48, D + bs}
+    H = len(img)
+    bmp_bytes = (max_mapnr + 7) // 8
+    bmp_blocks = max(1, (bmp_bytes + bs - 1) // bs)
+    cpu_sz = 1024
+    sub = struct.pack("<I", cpu_sz * nr_cpus) + b"".join(struct.pack("<QQ", i, i) for i in range(nr_cpus))
+    cpus_off = len(sub)
+    for i in range(nr_cpus):
+        st = bytearray(cpu_sz)
+        struct.pack_into("<Q", st, 992, (1 << 10) if lma else 0)
+        sub += bytes(st)
+    sub_blocks = (len(sub) + bs - 1) // bs
+    sh = (b"sadump\0\0" + struct.pack("<II", header_version, 0) + stamp +
+          struct.pack("<IIIIIIIIIIIIII", 0, 0, bs, 0, sub_blocks, bmp_blocks, bmp_blocks, max_mapnr & 0xffffffff, len(ram), 0, 0, 0, nr_cpus, 0) +
+          struct.pack("<QQQQ", max_mapnr, len(ram), 0, 0))
+    assert len(sh) == 120
+    img += sh.ljust(bs, b"\0")
+    names = ["status", "compress", "block_size", "extra_hdr_size", "sub_hdr_size", "bitmap_blocks", "dumpable_bitmap_blocks", "max_mapnr",
+             "total_ram_blocks", "device_blocks", "written_blocks", "current_cpu", "nr_cpus", "_pad2"]
+    fields += [("hdr.signature", H, 8, 0), ("hdr.header_version", H + 8, 4, 0)]
+    for i, n in enumerate(names):
+        fields.append(("hdr." + n, H + 32 + 4 * i, 4, 0))
+    for i, n in enumerate(("max_mapnr_64", "total_ram_blocks_64", "device_blocks_64", "written_blocks_64")):
+        fields.append(("hdr." + n, H + 88 + 8 * i, 8, 0))
+    bounds |= {H, H + 120, H + bs}
+    S = len(img)
+    img += sub.ljust(sub_blocks * bs, b"\0")
+    fields += [("sub.size", S, 4, 0), ("sub.apic0.id", S + 4, 8, 0)]
+    for i in range(nr_cpus):
+        fields.append(("sub.cpu%d.ia32_efer" % i, S + cpus_off + i * cpu_sz + 992, 8, 0))
+    bounds |= {S, S + 4, S + cpus_off, S + len(sub), S + sub_blocks * bs}
+    b1 = bytearray(bmp_blocks * bs)
+    b2 = bytearray(bmp_blocks * bs)
+    for p in ram:
+        if p < max_mapnr:
+            b1[p >> 3] |= 0x80 >> (p & 7)
+    for p in pages:
+        b2[p >> 3] |= 0x80 >> (p & 7)
+    B = len(img)
+    img += b1 + b2
+    fields += [("bitmap1[0]", B, 1, 0), ("bitmap2[0]", B + len(b1), 1, 0)]
+    bounds |= {B, B + len(b1), B + 2 * len(b1)}
+    for p in pages:
+        bounds.add(len(img))
+        img += page_bytes(p, ps)
+    struct.pack_into("<Q", img, P + 160, len(img))
+    with open(path, "wb") as f:
+        f.write(img)
+    return dict(fields=fields, bounds=sorted(bounds | {len(img)}), size=len(img))
+
+
+def c03_write_s390(path, npages=4, ps=4096, arch=2, hdr_size=4096, end_marker=True):
+    """s390 stand-alone dump (big endian)."""
+    mem = npages * ps
+    h = struct.pack(">QIIIIQQQI4xQQIIIQBHH", 0xa8190173618f23fd, 5, hdr_size, 4, ps, mem, 0, mem, npages,
+                    0x1000, 0, arch, 0, arch, mem, 0, 1, 1)
+    assert len(h) == 97
+    img = bytearray(h.ljust(hdr_size, b"\0"))
+    for p in range(npages):
+        img += page_bytes(p, ps)
+    E = len(img)
+    if end_marker:
+        img += b"DUMP_END" + struct.pack(">Q", 0x2000)
+    with open(path, "wb") as f:
+        f.write(img)
+    fields = [("magic", 0, 8, 1), ("version", 8, 4, 1), ("hdr_size", 12, 4, 1), ("dump_level", 16, 4, 1), ("page_size", 20, 4, 1),
+              ("mem_size", 24, 8, 1), ("mem_start", 32, 8, 1), ("mem_end", 40, 8, 1), ("num_pages", 48, 4, 1), ("tod", 56, 8, 1),
+              ("cpu_id", 64, 8, 1), ("arch", 72, 4, 1), ("volnr", 76, 4, 1), ("build_arch", 80, 4, 1), ("mem_size_real", 84, 8, 1),
+              ("mvdump", 92, 1, 1), ("cpu_cnt", 93, 2, 1), ("real_cpu_cnt", 95, 2, 1), ("end.str[0]", E, 1, 1), ("end.tod", E + 8, 8, 1)]
+    bounds = sorted({0, 97, 0x200, 0x800, hdr_size, E, E + 8, len(img)} | {hdr_size + k * ps for k in range(npages)})
+    return dict(fields=fields, bounds=bounds, size=len(img))
